@@ -11,8 +11,8 @@
 EXTENDS Integers, Sequences, FiniteSets, Json, IOUtils, TLC
 
 Trace == ndJsonDeserialize(IOEnv.TRACE_FILE)
-P == INSTANCE Partition WITH MaxN <- 0, MinN <- 0, Places <- {}, AllowExtra <- FALSE,
-                             phase <- "trace", n <- 0, ifm <- <<>>, extra <- <<>>, plc <- <<>>, list <- <<>>,
+P == INSTANCE Partition WITH MaxN <- 0, MinN <- 0, Places <- {}, AllowExtra <- FALSE, MultiOut <- FALSE, SinkSees <- "all",
+                             phase <- "trace", n <- 0, ifm <- <<>>, extra <- <<>>, plc <- <<>>, nout <- <<>>, second <- <<>>, list <- <<>>,
                              top <- <<>>, rest <- <<>>, k <- 0, pv <- <<>>, runs <- <<>>, cseq <- <<>>
 
 VARIABLES l, viol, drift
